@@ -38,7 +38,21 @@ def adversarial(pool):
         ('digits', interp.vint(10 ** 5000)), ('s', ['str', 'ab']), ('empty', ['str', '']),
         ('d1', ['date', str(63_842_000_000_000_000)]), ('dmin', ['date', '0']), ('dmax', ['date', str(315_537_897_599_999_999)]),
         ('arr', pool.arr([interp.vflt(1)])), ('obj', pool.obj([['a', interp.vflt(1)]])), ('rx', ['regex']),
+        # containers that contain themselves (arrayPush(a, a), objectSet(o, 'k', o)): comparing them recurses without end
+        ('cyc', cyclic_arr(pool)), ('cyco', cyclic_obj(pool)),
     ]
+
+
+def cyclic_arr(pool):
+    a = pool.arr([interp.vflt(1)])
+    a[2].append(['ref', a[1]])
+    return a
+
+
+def cyclic_obj(pool):
+    o = pool.obj([['a', interp.vflt(1)]])
+    o[2].append(['self', ['ref', o[1]]])
+    return o
 
 
 def nonterminating(op, na, nb):
